@@ -27,8 +27,8 @@ class Prop:
     GC_EVERY = 5
     RUN_TIMEOUT = 10.0
     DIGEST_EVERY = 20
-    RULE = ("seeded random histories (4-30 ops) on 2-5 PNode objects with nine observed "
-            "properties (six cached; two are declared in a base class and only their getters are "
+    RULE = ("seeded random histories (4-30 ops) on 2-5 PNode objects with ten observed "
+            "properties (seven cached, one over a Dict of Lists; two are declared in a base class and only their getters are "
             "overridden, uncached->cached and cached->uncached): link/list/dict/set dependency mutations incl. shared and "
             "repeated nodes, slice assignments that keep / repeat current items (same object removed "
             "and added in one event with a different number of occurrences), equal-list "
@@ -87,11 +87,13 @@ class Prop:
         if r.random() < 0.05:
             # 'del node.trait': the dependency falls back to its default
             return {"k": "del_attr", "o": r.randrange(npool + 1),
-                    "name": r.choice(["child", "children", "children", "table", "group"])}
+                    "name": r.choice(["child", "children", "children", "table", "group",
+                                       "shelf"])}
         for _ in range(20):
             op = G.gen_graph_op(r, npool)
             if op["k"] in ("set_child", "set_children", "children_same", "list", "set_table",
-                           "dict", "set_group", "set", "read"):
+                           "dict", "set_group", "set", "read", "set_shelf", "shelf_outer",
+                           "shelf_inner"):
                 return op
         return {"k": "set_child", "o": 0, "v": {"n": 1}}
 
